@@ -198,6 +198,21 @@ fn main() {
                 vengine::checks::c19::loader_worker(&args[i + 1], args[i + 2].parse().unwrap());
                 return;
             }
+            "--merge-diff" => {
+                // debug: vcheck --merge-diff <grammar.json> <text>: trees with and without state merging
+                let g = std::fs::read_to_string(&args[i + 1]).unwrap();
+                for (label, opt) in [("merged", tree_sitter_generate::OptLevel::default()), ("unmerged", tree_sitter_generate::OptLevel::empty())] {
+                    let (name, c) = vengine::lang::generate_c(&g, opt).unwrap();
+                    let so = vengine::lang::compile_so(&c, None, "-O0", label).unwrap();
+                    let l = vengine::lang::load_so(&so, &name).unwrap();
+                    let mut p = tree_sitter::Parser::new();
+                    p.set_language(&l.language).unwrap();
+                    let t = p.parse(args[i + 2].as_bytes(), None).unwrap();
+                    println!("{label}: {}", t.root_node().to_sexp());
+                    let _ = std::fs::remove_file(&so);
+                }
+                return;
+            }
             "--hl" => {
                 // debug: vcheck --hl <mini|mini-nolocals|arith|tmpl|tmpl-combined> <file>
                 let bytes = std::fs::read(&args[i + 2]).unwrap();
